@@ -18,7 +18,7 @@ from engine import (Check, tlc_ok, validate_traces, pmap, run, tool_env, BIN,
 import regen
 
 ROLES = ['source', 'output', 'srcdir', 'outdir', 'copy', 'install', 'insthdr',
-         'depfile', 'header']
+         'depfile', 'header', 'finddir']
 PUNCT = list('!"#$%&\'()*+,-.:;<=>?@[]^_`{|}~ ')
 
 
@@ -157,6 +157,14 @@ def project_for(role, n):
         files[n + '.h'] = '#define H 1\n'
         bfg = "executable('prog', ['main.c'])"
         prereq, outs = n + '.h', [('obj', 'main.c')]
+    elif role == 'finddir':
+        # the name is a directory searched by find_files: it is an entry of
+        # the depfile that makes the build files regenerate
+        files['lib/' + n + '/m.c'] = 'int f(void){return 1;}\n'
+        files['lib/zz/k.c'] = 'int k(void){return 1;}\n'
+        bfg = "executable('prog', ['main.c'] + find_files('lib/**/*.c'))"
+        prereq = 'lib/' + n + '/m.c'
+        outs = [('obj', 'lib/' + n + '/m.c'), ('file', 'prog')]
     elif role == 'install':
         bfg = "install(executable(%r, ['main.c']))" % n
         prereq, outs = 'main.c', [('file', n)]
@@ -179,6 +187,7 @@ def run_cycle(arg):
           'in_scope': in_scope, 'configure_exit': -1, 'created': False,
           'uptodate': False, 'noticed': False, 'cleaned': False,
           'installed': True, 'uninstalled': True, 'hdrgone': True,
+          'dirnoticed': True, 'dirgone': True,
           'note': ''}
     try:
         files, prereq, outs = project_for(role, n)
@@ -213,7 +222,13 @@ def run_cycle(arg):
                     ev['note'] = 'no compile command for ' + x
                     return ev
                 paths.append(os.path.join(p.bld, hit[0]['output']))
-        rc, out = p.tool()
+        # (a build that never ends - Make re-making its Makefile for ever -
+        # is a build that did not create the file)
+        import subprocess
+        try:
+            rc, out = p.tool(timeout=60)
+        except subprocess.TimeoutExpired:
+            rc, out = -1, 'the build tool did not finish within 60 s'
         ev['created'] = rc == 0 and all(os.path.isfile(x) for x in paths)
         if not ev['created']:
             ev['note'] = out[-300:]
@@ -242,6 +257,28 @@ def run_cycle(arg):
             ev['hdrgone'] = rc == 0 and rc2 == 0
             if not ev['hdrgone'] and not ev['note']:
                 ev['note'] = (out + out2)[-300:]
+        if role == 'finddir':
+            # a file appears in the searched directory: the build files are
+            # made again and the program is linked with it; then the whole
+            # directory goes away: the next build must still go through
+            prog = os.path.join(p.bld, 'prog')
+            p.tick()
+            regen.write(os.path.join(p.src, 'lib', n, 'new.c'),
+                        'int g(void){return 2;}\n')
+            m3 = mt(prog)
+            rc, out = p.tool()
+            ev['dirnoticed'] = rc == 0 and mt(prog) != m3
+            if not ev['dirnoticed'] and not ev['note']:
+                ev['note'] = out[-300:]
+            p.tick()
+            shutil.rmtree(os.path.join(p.src, 'lib', n))
+            m3 = mt(prog)
+            rc, out = p.tool()
+            # (Make does not link again when only the list of objects shrank)
+            ev['dirgone'] = rc == 0
+            if not ev['dirgone'] and not ev['note']:
+                ev['note'] = out[-300:]
+            paths = [prog]
         if role in ('install', 'insthdr'):
             want = stage + os.path.join(prefix, 'bin', n) \
                 if role == 'install' else \
